@@ -44,10 +44,14 @@ func VerifC17Name() {
 	alpha := "aZ1_-."
 	L := vrtParam("L", 2)
 	dirs := []string{"proj", "My.Dir", "_x9", "UP", "--", ".-cache", "._My.Proj", "@_x"}
+	slim := vrtParam("OPTS", 1) > 1 // the entry that varies the loader options keeps three directories and no link
+	if slim {
+		dirs = []string{"proj", "My.Dir", "--"}
+	}
 	dir := dirs[vrtChoice("dir", len(dirs))]
 	wd := root + "/w/" + dir
 	vrtDir(wd)
-	if vrtChoice("viaSymlink", 2) == 1 {
+	if !slim && vrtChoice("viaSymlink", 2) == 1 {
 		// the project directory the caller names is a symbolic link to a directory of another name: the name the
 		// caller uses counts
 		link := "ln" + dir
@@ -118,6 +122,17 @@ func VerifC17Name() {
 		opts = append(opts, WithName(explicit))
 	}
 	opts = append(opts, WithWorkingDirectory(wd), WithEnv(envList), WithOsEnv, WithEnvFiles(), WithDotEnv)
+	// loader options that have nothing to do with the name: the name is settled the same way under each of them
+	switch vrtChoice("loaderOption", vrtParam("OPTS", 1)) {
+	case 1:
+		opts = append(opts, WithNormalization(false))
+	case 2:
+		opts = append(opts, WithConsistency(false))
+	case 3:
+		opts = append(opts, WithResolvedPaths(false))
+	case 4:
+		opts = append(opts, WithDiscardEnvFile)
+	}
 	po, err := NewProjectOptions([]string{wd + "/compose.yaml", wd + "/over.yaml"}, opts...)
 	var name string
 	var gotEnvName string
